@@ -2690,7 +2690,11 @@ func (pid *PID) setBehaviorStacked(behavior Behavior) {
 // prior to setBehaviorStacked is called
 func (pid *PID) unsetBehaviorStacked() {
 	pid.fieldsLocker.Lock()
-	pid.behaviorStack.Pop()
+	// "no effect if there is no stack": never pop the last behavior, or every
+	// later message finds an empty stack and is dropped without a trace
+	if pid.behaviorStack.Len() > 1 {
+		pid.behaviorStack.Pop()
+	}
 	pid.fieldsLocker.Unlock()
 }
 
